@@ -122,6 +122,10 @@ SKEL_R = [
     ('start: NAME "=" NUM | NUM "+" NUM | "if" NAME\nNAME: /[a-z][a-z0-9]*/\nNUM: /[0-9]+/\n%ignore " "\n', ['x', 'x1', 'if', 'iff', '1', '22', '=', '+', ' ', 'q=', '9+9', 'if x']),
     ('start: item+\nitem: KEY ":" VAL | "[" start "]"\nKEY: /[a-z]+/\nVAL: /[0-9]+|[a-z]+/\n%ignore /[ ]+/\n', ['a', 'ab', ':', '1', '[', ']', ' ', 'a:1', 'b:c', '[a:1]', '::']),
     ('start: "begin" stmt* "end"\nstmt: WORD ";" | "begin" stmt* "end"\nWORD: /[a-z]+/\n%ignore " "\n', ['begin', 'end', 'x', ';', ' ', 'beginx', 'endend', 'begin end', 'x;']),
+    # an ignored terminal that wins the lexer's choice at a position where a start terminal matches too, with a real match beginning
+    # strictly inside the ignored span
+    ('start: A C | B D\nA: "a"\nB: "b"\nC: "c"\nD: "d"\n%ignore /ab/\n', ['a', 'b', 'c', 'd', 'ab', 'abd', 'ac', 'bd', 'abc']),
+    ('start: A+ C | B D\nA: "a"\nB: "b"\nC: "c"\nD: "d"\n%ignore /a+b/\n%ignore " "\n', ['a', 'b', 'c', 'd', 'aab', 'abd', 'ac', 'bd', ' ', 'aac']),
 ]
 
 
